@@ -96,7 +96,7 @@ structure Entry where
   start : Rat            -- a double
   value : Rat            -- the duration argument (a double)
   content : Option NC    -- `none` = rest
-  deriving Repr
+  deriving Repr, DecidableEq
 
 structure Bar where
   key : Str := s "C"
@@ -104,7 +104,7 @@ structure Bar where
   length : Rat := 1
   current : Rat := 0
   entries : List Entry := []
-  deriving Repr
+  deriving Repr, DecidableEq
 
 namespace Bar
 open F64
@@ -174,7 +174,7 @@ structure Instrument where
   lo : Note
   hi : Note
   maxNotes : Option Nat := none      -- Guitar: at most six notes
-  deriving Repr
+  deriving Repr, DecidableEq
 
 def genericInstrument : Instrument := ⟨⟨s "C", 0, 1, 64⟩, ⟨s "C", 8, 1, 64⟩, none⟩
 def piano : Instrument := ⟨⟨s "F", 0, 1, 64⟩, ⟨s "B", 8, 1, 64⟩, none⟩
@@ -188,9 +188,15 @@ def Instrument.canPlay (i : Instrument) (nc : NC) : Bool :=
 structure Track where
   bars : List Bar := []
   instrument : Option Instrument := none
-  deriving Repr
+  deriving Repr, DecidableEq
 
 namespace Track
+
+/-- the bars `add_notes` works on: a first bar for an empty track, a fresh bar (same key and meter) after a full last bar -/
+def prepared (t : Track) : List Bar :=
+  let bars0 := if t.bars.isEmpty then [({} : Bar)] else t.bars
+  let last := bars0.getLast?.getD {}
+  if last.isFull then bars0 ++ [{ key := last.key, meter := last.meter, length := last.length }] else bars0
 
 /-- `add_notes(content, value)` (rests skip the instrument gate): (accepted?, track).  As in the code, a bar opened for
     an item that is then refused stays behind (recorded finding C14-refused-add-opens-bar). -/
@@ -198,13 +204,8 @@ def addNotes (t : Track) (content : Option NC) (v : Rat) : Except Err (Bool × T
   match t.instrument, content with
   | some i, some nc => if !i.canPlay nc then throw .instrumentRange
   | _, _ => pure ()
-  let bars0 := if t.bars.isEmpty then [({} : Bar)] else t.bars
-  let last := bars0.getLast?.getD {}
-  let bars1 := if last.isFull then bars0 ++ [{ key := last.key, meter := last.meter, length := last.length }] else bars0
-  let cur := bars1.getLast?.getD {}
-  let (ok, cur') := cur.place content v
-  if ok then pure (true, { t with bars := bars1.dropLast ++ [cur'] })
-  else pure (false, { t with bars := bars1 })
+  let r := ((prepared t).getLast?.getD {}).place content v
+  pure (if r.1 then (true, { t with bars := (prepared t).dropLast ++ [r.2] }) else (false, { t with bars := prepared t }))
 
 def addBar (t : Track) (b : Bar) : Track := { t with bars := t.bars ++ [b] }
 
